@@ -125,6 +125,12 @@ def plan(ctx):
             continue
         recs.append(dict(recipe=fam.recipes[k], mu=c["mu"], lam=c["lam"], alpha=c["coef"]["alpha"], p=c["coef"]["p"],
                          inverter="python", partition=None, few=q))
+    if q:
+        # the split path on two 2D grids large enough for the sub-problems to differ from the whole grid
+        for kind, n, variant, part in (("cart", (5, 3), "plain", {"num_subproblems": 3}),
+                                       ("simplex", (4, 4), "perturbed", {"num_subproblems": 2})):
+            rcp = M.recipe_for(kind, list(n), variant, rng)
+            recs.append(dict(recipe=rcp, mu=2, lam=1, alpha=5, p=3, inverter="python", partition=part, few=False))
     if not q:
         extra = []
         for i, r in enumerate(recs):
@@ -156,7 +162,7 @@ def run(ctx):
     ctx.assumptions = ["integer node coordinates |x| <= 12, planar faces, valid cells (ValidE decided by TLC on the exported grid)",
                        "Dirichlet mechanical boundary data on every boundary face (the property's family)",
                        "tensor-valued coupling coefficients follow the code's documentation: alpha : grad(u) and alpha grad(p)",
-                       "quick: inverter='python', one sub-problem; thorough adds inverter='numba' and the split path",
+                       "quick: inverter='python', one sub-problem, plus two 2D grids through the split path; thorough adds inverter='numba' and more of the split path",
                        "doubles: agreement within 1e-9 with the exact rational, violation beyond 1e-6 max(1,|ref|), in between "
                        "inconclusive (DESIGN section 8)",
                        "black-box oracle: the local-system mechanism is not modelled"]
